@@ -1489,6 +1489,10 @@ class AttrParser(BaseParser):
         if isinstance(type, AnyFloat):
             if is_hexadecimal_token:
                 assert isinstance(value, int)
+                if not 0 <= value < 1 << (8 * type.compile_time_size):
+                    self.raise_error(
+                        f"hexadecimal float literal out of range for type {type}"
+                    )
                 raw = value.to_bytes(type.compile_time_size, "little")
                 return FloatAttr(next(type.iter_unpack(raw)), type)
             return FloatAttr(float(value), type)
